@@ -46,9 +46,11 @@ inline void vstl_fresh_value(InterrogateFunction *&v) { v = VU_NEW(InterrogateFu
 std::string InterrogateComponent::_empty_string;
 
 // ---------------------------------------------------------------- callee contracts (replace form)
+static bool g_load_fails;       // a pending database file cannot be found, opened or read: load_latest reports it through the error flag
 void InterrogateDatabase::load_latest() {
   // may load anything: entries may appear, records may change; no request stays pending
   _requests._n = 0;
+  if (g_load_fails) _error_flag = true;
   _type_map._gpresent = nondet_bool();
   _function_map._gpresent = nondet_bool();
   _wrapper_map._gpresent = nondet_bool();
@@ -141,3 +143,15 @@ static void wf_records() {
 InterrogateDatabase *InterrogateDatabase::get_ptr() { wf_records(); return &g_db; }
 //@whole src/interrogatedb/interrogate_interface.cxx
 //@splice interface_entries.inc
+
+// ---- the error flag is a query like the others: it answers for every database that has been requested, also for requests
+// that are still pending (loads are lazy), so the answer does not depend on which other query happened to be asked first
+void h_error_flag_reports_pending_loads() {
+  InterrogateDatabase *db = make_db();
+  bool vin_flag_before = db->_error_flag; size_t vin_pending = db->_requests._n;
+  g_load_fails = nondet_bool();
+  bool r = interrogate_error_flag();
+  OBL(r == (vin_flag_before || (vin_pending > 0 && g_load_fails)), "C12.error_flag: a requested database file that fails to load is reported by interrogate_error_flag(), whether or not another query forced the load first");
+  OBL(db->_requests._n == 0, "C13.error_flag: no request stays pending behind a query");
+  VU_REACHED();
+}
